@@ -1175,9 +1175,20 @@ def c12(run):
                               kind="history", op=f)
     meta = [None if (isinstance(m, tuple) and m[0] == "bank") else m for m in meta]
     check_lookups(run, ops, meta, reals)
+    # seeded random draws with a pinned bank code in countries with few banks, then every lookup of those
+    # countries: generating IBANs must leave the registry as it is
+    small = [cc for cc, es in sorted(by_cc.items()) if 5 <= len(es) <= 60 and cc in S.table
+             and "bank_code" in S.table[cc].get("positions", {})]
+    after_draws = []
+    for cc in r.sample(small, min(len(small), run.scale(4, 40))):
+        s_, e_ = S.table[cc]["positions"]["bank_code"]
+        for k in range(12):
+            code = "".join(S.draw_class(c) for c in S.classes(cc)[s_:e_])
+            real(["iban.random", hx(cc), str(run.seed * 100 + k), "T", "bank_code=" + hx(code)])
+        after_draws += sorted({e["bic"] for e in by_cc[cc] if e["bic"]})
     # reverse lookups: registry restricted to the entries of the sampled BICs (+ distractors)
     bics = sorted({e["bic"] for e in S.banks if e["bic"]})
-    sample = bics if run.tier == "thorough" else r.sample(bics, 300)
+    sample = bics if run.tier == "thorough" else sorted(set(r.sample(bics, 300)) | set(after_draws))
     want = set(sample)
     sub = [e for e in S.banks if e["bic"] in want or r.random() < 0.01]
     ops2 = registry_lines(sub) + [["bic.lookup", hx(b)] for b in sample + ["GENODEM1XXX", "AAAADEFF"]]
@@ -1462,6 +1473,9 @@ def c17(run):
             listed = [e["bank_code"] for e in S.banks_of(cc) if e["bank_code"]]
             edge.update([(cc, listed[0]), (cc, listed[-1])])
         keys = sorted(edge | set(r.sample(keys, min(len(keys), 700))))
+    # entries that lack an expected key are always built and read back
+    keys = sorted(set(keys) | {(e.get("country_code", ""), e.get("bank_code", "")) for e, _ in S.malformed_entries
+                               if e.get("bank_code") and (e.get("country_code", ""), e.get("bank_code", "")) in first})
     by_cc = {}
     for k in keys:
         by_cc.setdefault(k[0], []).append(k)
@@ -1507,6 +1521,12 @@ def c17(run):
             if not a.startswith(exp + " | "):
                 run.violation("iban.bank for an IBAN built around a listed bank", [cc, code, i], a, exp,
                               "listed bank is found again from its IBAN", kind="config", op=f)
+            else:
+                want = expect_bank_line(S, S.banks_of(cc), cc, i[4:])
+                if a != want:
+                    run.violation("iban.bic for an IBAN built around a listed bank", [cc, code, i], a, want,
+                                  "the BIC the registry lists for the bank is found again from its IBAN",
+                                  kind="config", op=f)
 
 
 # --------------------------------------------------------------------------- C08
@@ -1908,7 +1928,15 @@ def call_pool(S, r, n):
                 pool.append(["bic.lookup", hx(e["bic"])])
         elif k < 0.93:
             cc = r.choice(S.countries)
-            pool.append(["iban.random", hx(cc), str(r.randrange(10 ** 6)), r.choice("TF")])
+            op = ["iban.random", hx(cc), str(r.randrange(10 ** 6)), r.choice("TF")]
+            pos = S.table[cc].get("positions", {})
+            if r.random() < 0.5 and pos:      # with a pinned component (conforming to its field)
+                comp = r.choice(sorted(k for k in pos if k in ("bank_code", "branch_code", "account_code")) or ["-"])
+                if comp != "-":
+                    s_, e_ = pos[comp]
+                    cls_ = S.classes(cc)[s_:e_]
+                    op.append(comp + "=" + hx("".join(S.draw_class(c) for c in cls_)))
+            pool.append(op)
         else:
             cc = r.choice(S.countries)
             pool.append(["iban.generate", hx(cc), hx("".join(r.choice(DIGITS) for _ in range(r.randint(0, 9)))),
@@ -2209,7 +2237,7 @@ def c14(run):
     except OSError:
         pass
     dirty = [n for n in ("sharedWritesAfterImport", "moduleStateWrites", "sharedScratch")
-             if _re.search(r"def " + n + r" : List String := \[\S", eff)]
+             if _re.search(r"def " + n + r" : List String := \[\"", eff)]
     if dirty:
         run.notes.append("effect probe: " + ", ".join(dirty) + " non-empty -> cold-start schedule search")
         bad_be = "BE" + iban_check_digits("BE", "539007547035") + "539007547035"
@@ -2219,10 +2247,28 @@ def c14(run):
                  ["iban.new", hx(bad_be), "F", "T"]],
                 [["bic.from_bank_code", hx("DE"), hx("43060967")], ["bban.bank", hx("DE"), hx("370400440532013000")]],
                 [["iban.new", hx("DE65100307000100000111"), "F", "T"], ["bic.candidates", hx("DE"), hx("10030700")]]]
+        # two ordinary calls of different kinds / countries at the same time (state that one call parks in a
+        # shared object between two of its own steps)
+        v1, v2 = S.iban("DE"), S.iban("GB")
+        mixed = [[["iban.from_bban", hx("DE"), hx(v1[4:])], ["iban.from_bban", hx("GB"), hx(v2[4:])]],
+                 [["iban.new", hx(v1), "F", "F"], ["iban.new", hx(v2), "F", "F"]],
+                 [["iban.generate", hx("BE"), hx("539"), hx("0075470"), hx("")], ["iban.new", hx(v1), "F", "T"]]]
+        stop = False
+        for ops in mixed:
+            n, found = sched.search(ops, limit=run.scale(120, 1000))
+            total += n
+            run.count(n, key=("mixed",) + tuple(map(tuple, ops)), tag="schedules " + ops[0][0])
+            if found:
+                sch, got, want = found
+                run.violation("two concurrent calls", [readable_op(o) for o in ops], got, want,
+                              "line-level schedule search on the real code", kind="schedule", ops=ops,
+                              schedule=sch, expected_alone=want)
+                stop = True
+                break
         # a module-level container is written by library calls: one call that is repeated, against a flood
         # of distinct calls on the same algorithm object (bounded caches evict; an eviction between a
         # membership test and the read is a lost entry)
-        if "moduleStateWrites" in dirty:
+        if "moduleStateWrites" in dirty and not stop:
             for m in (directed + base)[:3]:
                 acct = "".join(r.choice(DIGITS) for _ in range(10))
                 one = ";".join(["algo.validate", hx("DE:" + m), "-", hx(acct)])
